@@ -36,6 +36,9 @@ class Tree:
         self.dirs = {}          # lookup root -> [relative names of directories]
         self.nonce = "%016x" % rng.getrandbits(64)
         self.secret_token = ("SECRET-TOKEN-" + self.nonce).encode()
+        self.fifo_token = ("VF20|FIFO-TOKEN-" + self.nonce + "|").encode()   # what the harness feeder writes into any pipe somebody reads
+        self.fifos = []         # absolute paths of every named pipe in the tree
+        self.specials = {}      # lookup root -> [relative names of FIFOs / sockets]
         self.build()
 
     # ---- construction
@@ -54,6 +57,23 @@ class Tree:
     def _link(self, path, target):
         os.makedirs(os.path.dirname(path), exist_ok=True)
         os.symlink(target, path)
+
+    def _fifo(self, path):
+        os.makedirs(os.path.dirname(path), exist_ok=True)
+        os.mkfifo(path)
+        self.fifos.append(path)
+
+    def _sock(self, path):
+        import socket
+        os.makedirs(os.path.dirname(path), exist_ok=True)
+        s = socket.socket(socket.AF_UNIX, socket.SOCK_STREAM)
+        cwd = os.getcwd()
+        try:
+            os.chdir(os.path.dirname(path))          # sun_path is limited to 108 bytes
+            s.bind(os.path.basename(path))
+        finally:
+            os.chdir(cwd)
+            s.close()                                # the socket file stays
 
     def _populate(self, base, kind, sibling):
         """one lookup root (static / templates / ext) with the same hostile furniture"""
@@ -89,6 +109,18 @@ class Tree:
         L(j("dangling"), "no-such-target")
         L(j("dangling_out"), os.path.join(os.path.dirname(self.secret), "not-yet"))
         L(j("loop"), "loop")
+        # objects that are neither regular files nor directories, their aliases and their .gz siblings
+        P, S = self._fifo, self._sock
+        P(j("pipe" + ext)); P(j("css", "pipe.css")); S(j("sock" + ext))
+        L(j("link_fifo" + ext), "pipe" + ext); L(j("link_fifo_abs" + ext), j("css", "pipe.css")); L(j("link_sock" + ext), "sock" + ext)
+        L(j("link_devnull" + ext), "/dev/null"); L(j("link_devzero" + ext), "/dev/zero"); L(j("link_devdir"), "/dev")
+        F(j("pipe" + ext + ".gz"), extra=b"regular gz sibling of a pipe")      # pipe.txt + pipe.txt.gz (regular)
+        F(j("d" + ext)); P(j("d" + ext + ".gz"))                                # regular file whose .gz sibling is a pipe
+        F(j("e" + ext)); L(j("e" + ext + ".gz"), "pipe" + ext)                 # ... is a symlink to a pipe
+        F(j("f" + ext)); os.makedirs(j("f" + ext + ".gz"))                      # ... is a directory
+        F(j("g" + ext)); S(j("g" + ext + ".gz"))                                # ... is a socket
+        F(j("h" + ext)); L(j("h" + ext + ".gz"), "/dev/zero")                  # ... is a symlink to a device
+        F(j("x.css", "inside-a-directory-named-like-a-file" + ext)); F(j("x.css.gz"), extra=b"gz sibling of a directory")
         if kind == "static":
             L(j("link_templates"), os.path.join("..", "templates"))
         if kind == "templates":
@@ -113,7 +145,7 @@ class Tree:
         self._file(os.path.join(self.root, "top.txt"))
         self.roots = {"static": st, "templates": tp, "ext": self.ext}
         for k, base in self.roots.items():
-            fs, ls, ds = [], [], []
+            fs, ls, ds, sp = [], [], [], []
             for d, dirs, files in os.walk(base):
                 for n in dirs + files:
                     p = os.path.join(d, n)
@@ -122,9 +154,11 @@ class Tree:
                         ls.append(rel)
                     elif os.path.isdir(p):
                         ds.append(rel)
-                    else:
+                    elif os.path.isfile(p):
                         fs.append(rel)
-            self.files[k], self.links[k], self.dirs[k] = sorted(fs), sorted(ls), sorted(ds)
+                    else:
+                        sp.append(rel)
+            self.files[k], self.links[k], self.dirs[k], self.specials[k] = sorted(fs), sorted(ls), sorted(ds), sorted(sp)
 
     # ---- oracle
     def judge(self, rootkind, name, blob):
@@ -135,8 +169,14 @@ class Tree:
         route = self.route(base, name)
         if ident == self.secret_id or self.secret_token in head:
             return "secret-returned", route, "the secret file's bytes"
+        if self.fifo_token in head:
+            return "pipe-bytes-returned", "non-regular", "bytes read from a named pipe (the harness feeder's token): not the content of any regular file"
         path = self.by_id.get(ident)
         if path is None:
+            nk = self.named_kind(rootkind, name)[0]
+            if nk in ("fifo", "socket", "chardev", "blockdev", "other"):
+                return ("pipe-bytes-returned" if nk == "fifo" else "non-regular-bytes-returned"), "non-regular", \
+                    "%d bytes read from a %s (head %r): not the content of any regular file" % (blob["len"], nk, head[:40])
             return "outside-root-returned", route, "bytes that are not the content of any file below the root (head %r)" % head[:60]
         try:
             st = os.lstat(path)
@@ -163,6 +203,27 @@ class Tree:
         except (OSError, ValueError):
             pass
         return None
+
+    def named_kind(self, rootkind, name):
+        """what the OS says root/name resolves to: (kind, realpath) with kind in regular/dir/fifo/socket/chardev/blockdev/missing"""
+        import stat as _s
+        if b"\0" in name:
+            return "nul", None
+        base = self.roots[rootkind]
+        try:
+            p = os.path.realpath(os.path.join(os.fsencode(base), name))
+            st = os.stat(p)
+        except (OSError, ValueError):
+            return "missing", None
+        m = st.st_mode
+        kind = ("regular" if _s.S_ISREG(m) else "dir" if _s.S_ISDIR(m) else "fifo" if _s.S_ISFIFO(m) else "socket" if _s.S_ISSOCK(m)
+                else "chardev" if _s.S_ISCHR(m) else "blockdev" if _s.S_ISBLK(m) else "other")
+        return kind, os.fsdecode(p)
+
+    def write_fifo_list(self, path):
+        with open(path, "w") as fh:
+            for p in self.fifos:
+                fh.write(os.fsencode(p).hex() + "\n")
 
     def route(self, base, name):
         if b"\0" in name:
@@ -197,7 +258,8 @@ def gen_names(tree, rootkind, rng, n):
     sec_rel = os.path.relpath(tree.secret, base)
     case_abs = tree.case
     seeds = []
-    seeds += files + links + dirs
+    seeds += files + links + dirs + tree.specials[rootkind]
+    seeds += [x + ".gz" for x in tree.specials[rootkind]] + ["x.css", "x.css/", "f.txt.gz", "f.html.gz", "link_devdir/null", "link_devdir/zero", "link_devdir/urandom"]
     # entries below symlinked directories (inside and outside ones)
     below = ["secret.txt", "a.txt", "a.html", "dir/inner.txt", "css/site.css", "site.css", "x.txt", "deep/er/x.css", "static/a.txt", "templates/a.html",
              "root/top.txt", "secret/secret.txt", "etc/hostname", "up/a.txt", "up/css/site.css", "up/link_out.txt", "top.txt", "static-evil/x.txt"]
